@@ -197,6 +197,38 @@ def tlc_model_check(prop, module, cfg_name, emit=True, **kw):
     return r
 
 
+def apalache_check(prop, module_path, args, timeout=900):
+    """Runs apalache-mc check in a scratch directory under work/. Returns dict(ok, error_found, out)."""
+    wd = os.path.join(workdir(prop), "apalache")
+    os.makedirs(wd, exist_ok=True)
+    rc, out = sh(["apalache-mc", "check", "--out-dir=" + os.path.join(wd, "out"), "--run-dir=" + os.path.join(wd, "run")] + list(args) +
+                 [module_path], cwd=os.path.dirname(module_path), timeout=timeout)
+    ok = "The outcome is: NoError" in out
+    bad = "The outcome is: Error" in out or "Checker has found an error" in out
+    if not ok and not bad:
+        raise ToolError("apalache-mc gave no verdict on %s %s:\n%s" % (os.path.basename(module_path), " ".join(args), out[-2000:]))
+    return dict(ok=ok, error_found=bad, out=out)
+
+
+def tlapm_check(prop, module_path, timeout=900):
+    """Runs the TLA+ proof system on a module; a scratch copy of its directory keeps the cache out of spec/.
+    Returns dict(ok, obligations, failed, out)."""
+    import shutil
+    src = os.path.dirname(module_path)
+    wd = os.path.join(workdir(prop), "tlapm")
+    if os.path.isdir(wd):
+        shutil.rmtree(wd)
+    shutil.copytree(src, wd)
+    rc, out = sh(["tlapm", "--threads", "8", os.path.basename(module_path)], cwd=wd, timeout=timeout)
+    m = re.search(r"All (\d+) obligations? proved", out)
+    f2 = re.search(r"(\d+)/(\d+) obligations? failed", out)
+    if m:
+        return dict(ok=True, obligations=int(m.group(1)), failed=0, out=out)
+    if f2:
+        return dict(ok=False, obligations=int(f2.group(2)), failed=int(f2.group(1)), out=out)
+    raise ToolError("tlapm gave no verdict on %s:\n%s" % (os.path.basename(module_path), out[-2000:]))
+
+
 def vh(args, timeout=1800):
     rc, out = sh([VH] + [str(a) for a in args], timeout=timeout)
     if rc != 0:
